@@ -254,8 +254,51 @@ func ruleExportOrder(r *Run) {
 	var both, stray bool
 	pos := fn.Pos()
 	nLoops := 0
-	for _, l := range naturalLoops(fn) {
-		pa, ta, first := emits(fn, l.Body, 0)
+	// the traversal may have been moved into a private helper of Write (render())
+	type floop struct {
+		f *ssa.Function
+		l *natLoop
+	}
+	var floops []floop
+	group := helperGroup(p, fn)
+	// …also when a second entry point (WriteTo) shares it: the unexported methods of the same
+	// receiver that Write calls directly
+	allInstrs(fn, func(in ssa.Instruction) {
+		if c, ok := in.(*ssa.Call); ok {
+			if g := staticCallee(c); g != nil && p.inModule(g) && g.Signature.Recv() != nil && fn.Signature.Recv() != nil &&
+				types.Identical(g.Signature.Recv().Type(), fn.Signature.Recv().Type()) && g.Object() != nil && !g.Object().Exported() {
+				known := false
+				for _, x := range group {
+					if x == g {
+						known = true
+					}
+				}
+				if !known {
+					group = append(group, g)
+				}
+			}
+		}
+	})
+	for _, g := range group {
+		if g.Parent() != nil {
+			continue
+		}
+		takesElem := false
+		for _, par := range g.Params[1:] {
+			if typeIs(par.Type(), pkgDoc, "Paragraph") || typeIs(par.Type(), pkgDoc, "Table") || typeIs(par.Type(), pkgDoc, "TableCell") || typeIs(par.Type(), pkgDoc, "Run") {
+				takesElem = true
+			}
+		}
+		if takesElem && g != fn {
+			continue // an element writer, not the traversal
+		}
+		for _, l := range naturalLoops(g) {
+			floops = append(floops, floop{g, l})
+		}
+	}
+	for _, fl := range floops {
+		l := fl.l
+		pa, ta, first := emits(fl.f, l.Body, 0)
 		if !pa && !ta {
 			continue
 		}
@@ -638,6 +681,11 @@ func ruleSegmentValue(r *Run) {
 				return
 			}
 			if bt, ok := sl.X.Type().Underlying().(*types.Slice); !ok || bt.Elem().String() != "byte" {
+				return
+			}
+			// cutting a segment's text out needs both ends; a prefix source[:start] (to count the lines
+			// in front of a node) or a suffix takes no segment's text
+			if sl.Low == nil || sl.High == nil {
 				return
 			}
 			for _, bound := range []ssa.Value{sl.Low, sl.High} {
